@@ -318,7 +318,8 @@ func fInit(t *testing.T) {
 
 // ---- standard single-route scenario pieces ----------------------------------------------------
 
-var fIntegs1 = map[string][]fInteg{"r1": {{"webhook", 0, true}, {"email", 1, false}}}
+// indexes as the real receiver builder assigns them: per integration TYPE (webhook_configs[0], email_configs[0])
+var fIntegs1 = map[string][]fInteg{"r1": {{"webhook", 0, true}, {"email", 0, false}}}
 
 func fMon1() monCfg {
 	return monCfg{gw: 10 * time.Second, gi: 30 * time.Second, repeat: 2 * time.Minute, slack: 20 * time.Second, retention: 10 * time.Minute, receiver: "r1", integs: fIntegs1["r1"]}
@@ -378,7 +379,17 @@ func TestVerifC04App(t *testing.T) {
 			{"all integrations: ok", func(x *fx) bool { x.setMode("", mOK); return true }},
 			{"all integrations: answer ok after 8s, whatever happens to the flush", func(x *fx) bool { x.setMode("", mSlow); return true }},
 			{"restart (same data dir)", func(x *fx) bool { x.restart(); return true }},
-			{"reload", func(x *fx) bool { x.reload(); return true }},
+			{"reload; receiver r1 gains (or loses again) a second webhook listed before the e-mail integration", func(x *fx) bool {
+				// the other integrations keep their identity (type + index within the type): their dedup state must carry over
+				cur := x.env.integs["r1"]
+				if len(cur) == 2 {
+					x.env.integs["r1"] = []fInteg{cur[0], {"webhook", 1, true}, cur[1]}
+				} else {
+					x.env.integs["r1"] = []fInteg{cur[0], cur[2]}
+				}
+				x.reload()
+				return true
+			}},
 			evAdvance(10 * time.Second), evAdvance(30 * time.Second), evAdvance(2 * time.Minute), evAdvance(2*time.Minute + 31*time.Second),
 		}}
 	s.explore(t)
@@ -545,6 +556,13 @@ func TestVerifC02App(t *testing.T) {
 			{"silence A1", func(x *fx) bool { return x.silence("A1", true) }},
 			{"expire silence A1", func(x *fx) bool { return x.silence("A1", false) }},
 			{"silence A2", func(x *fx) bool { return x.silence("A2", true) }},
+			{"resolve A1 (its resolved notification is withheld while it is silenced)", func(x *fx) bool {
+				if _, ok := x.gt.alerts["A1"]; !ok {
+					return false
+				}
+				x.resolve("A1", "1")
+				return true
+			}},
 			{"restart (same data dir)", func(x *fx) bool { x.restart(); x.refire(); return true }},
 			evAdvance(9 * time.Second), evAdvance(10 * time.Second), evAdvance(31 * time.Second),
 		}}
@@ -570,6 +588,13 @@ func TestVerifC03App(t *testing.T) {
 			{"fire T (g=1, target)", func(x *fx) bool { x.fireL("T", map[string]string{"g": "1"}, time.Hour); return true }},
 			{"fire T2 (g=2, target, no source with g=2)", func(x *fx) bool { x.fireL("T2", map[string]string{"g": "2"}, time.Hour); return true }},
 			{"resolve S", func(x *fx) bool { x.resolveL("S", map[string]string{"g": "1"}); return true }},
+			{"resolve T (its resolved notification is withheld while S fires)", func(x *fx) bool {
+				if _, ok := x.gt.alerts["T"]; !ok {
+					return false
+				}
+				x.resolveL("T", map[string]string{"g": "1"})
+				return true
+			}},
 			{"reload", func(x *fx) bool { x.reload(); return true }},
 			evAdvance(9 * time.Second), evAdvance(10 * time.Second), evAdvance(31 * time.Second), evAdvance(50 * time.Second),
 		}}
